@@ -34,15 +34,27 @@ func C09(r *h.Run) {
 		runtime.GC()
 		runtime.ReadMemStats(&m0)
 		_, _, _, p := serveStream(cfg, h.NewChunkBody([][]byte{h.FrameLie(0, 64<<20, []byte("abc"))}, h.FinCleanEOF))
+		// the same lie in envelopes that are not plain messages (end-of-stream, trailers, undefined bits)
+		for _, fl := range []byte{0x02, 0x80, 0x04, 0x03, 0x81} {
+			_, _, _, p2 := serveStream(cfg, h.NewChunkBody([][]byte{h.FrameLie(fl, 64<<20, []byte("abc"))}, h.FinCleanEOF))
+			if p == nil {
+				p = p2
+			}
+			hdr, _, trailer := responseParts(cfg)
+			_, p3 := clientStreamRecv(cfg, 200, hdr, h.NewChunkBody([][]byte{h.FrameLie(fl, 64<<20, []byte("abc"))}, h.FinCleanEOF), trailer)
+			if p == nil {
+				p = p3
+			}
+		}
 		runtime.ReadMemStats(&m1)
 		alloc := m1.TotalAlloc - m0.TotalAlloc
 		r.Eval("length_lie_alloc", fmt.Sprintf("%s|%d|64MiB", protoName, n))
-		in := map[string]any{"proto": protoName, "limit": n, "declared": 64 << 20, "present": 3}
+		in := map[string]any{"proto": protoName, "limit": n, "declared": 64 << 20, "present": 3, "envelope_flags_tried": "00 (handler), then 02 80 04 03 81 (handler and client)"}
 		r.Sample("length_lie_alloc", map[string]any{"in": in, "total_alloc_delta": alloc})
 		if p != nil {
 			r.Fail(h.Failure{Key: "limit/panic", Family: "length_lie_alloc", What: fmt.Sprint("panic: ", p), Input: in})
 		}
-		if alloc > uint64(8*n+256*1024) {
+		if alloc > uint64(11*(8*n+256*1024)) {
 			hugeLiesSafe = false
 			r.Fail(h.Failure{Key: "limit/buffers-far-more-than-limit", Family: "length_lie_alloc", What: "a false length prefix made the receiver allocate substantially more than the read limit", Input: in, Actual: alloc})
 		}
